@@ -1435,6 +1435,12 @@ fn exec_log(case: &Value, tag: &str) -> Value {
                     "sqlite-query-encoded" => format!("sqlite://user:{}@/nonexistent-dir-c20/x.db?admin_password={}&busy_timeout=1", pw, pct(&apw_special)),
                     "postgres" => format!("postgres://user:{}@127.0.0.1:1/db?connect_timeout=1&admin_account=adm&admin_password={}", pw, apw),
                     "postgres-encoded" => format!("postgres://user:{}@127.0.0.1:1/db?connect_timeout=1", pct(&pw_special)),
+                    // every SUBSET of the credential-bearing parameters (seed C20f: the admin password without the admin
+                    // account stayed in the URI handed to sqlx, which logs unknown parameters with their values)
+                    "postgres-adminpw-only" => format!("postgres://user:{}@127.0.0.1:1/db?connect_timeout=1&admin_password={}", pw, apw),
+                    "postgres-adminpw-only-encoded" => format!("postgres://user:{}@127.0.0.1:1/db?admin_password={}&connect_timeout=1", pw, pct(&apw_special)),
+                    "postgres-adminacct-only" => format!("postgres://user:{}@127.0.0.1:1/db?connect_timeout=1&admin_account=adm", pw),
+                    "postgres-adminpw-twice" => format!("postgres://user:{}@127.0.0.1:1/db?admin_password=x&connect_timeout=1&admin_account=adm&admin_password={}", pw, apw),
                     "unknown-scheme" => format!("mysql://user:{}@db.example/db", pw),
                     _ => format!("sqlite://user:{}@/nonexistent-dir-c20/x.db", pw),
                 };
@@ -2644,12 +2650,14 @@ pub fn exec_ffilog_child(case: &Value, tag: &str) -> Value {
             secrets.push(("uri admin_password (percent-decoded)".into(), apw_special.clone().into_bytes()));
             secrets.push(("raw store key (text)".into(), raw.clone().into_bytes()));
             let (rawm, rawc) = (CS::new("raw"), CS::new(&raw));
-            for which in ["postgres", "postgres-encoded", "postgres-query-encoded", "sqlite-query-encoded", "unknown-scheme", "sqlite", "bad-percent"] {
+            for which in ["postgres", "postgres-encoded", "postgres-query-encoded", "postgres-adminpw-only", "sqlite-query-encoded", "unknown-scheme", "sqlite", "bad-percent"] {
                 let uri_s = match which {
                     "postgres-query-encoded" => format!("postgres://user:{}@127.0.0.1:1/db?connect_timeout=1&admin_account=adm&admin_password={}", pw, pct(&apw_special)),
                     "sqlite-query-encoded" => format!("sqlite://user:{}@/nonexistent-dir-c20/x.db?admin_password={}&busy_timeout=1", pw, pct(&apw_special)),
                     "postgres" => format!("postgres://user:{}@127.0.0.1:1/db?connect_timeout=1&admin_account=adm&admin_password={}", pw, apw),
                     "postgres-encoded" => format!("postgres://user:{}@127.0.0.1:1/db?connect_timeout=1", pct(&pw_special)),
+                    "postgres-adminpw-only" => format!("postgres://user:{}@127.0.0.1:1/db?connect_timeout=1&admin_password={}", pw, apw),
+                    "postgres-adminpw-only-encoded" => format!("postgres://user:{}@127.0.0.1:1/db?admin_password={}&connect_timeout=1", pw, pct(&apw_special)),
                     "unknown-scheme" => format!("mysql://user:{}@db.example/db", pw),
                     "bad-percent" => format!("sqlite://user:{}@/nonexistent-dir-c20/x.db?admin_password={}%zz&x=%e9", pw, apw),
                     _ => format!("sqlite://user:{}@/nonexistent-dir-c20/x.db", pw),
@@ -2919,7 +2927,8 @@ fn fmt_types() -> Vec<String> {
 fn log_scenarios() -> Vec<String> {
     let mut s = vec!["lifecycle:raw".to_string(), "lifecycle:argon".to_string()];
     for entry in ["open", "provision", "remove"] {
-        for which in ["postgres", "postgres-encoded", "postgres-query-encoded", "sqlite-query-encoded", "unknown-scheme", "sqlite"] {
+        for which in ["postgres", "postgres-encoded", "postgres-query-encoded", "postgres-adminpw-only", "postgres-adminpw-only-encoded",
+                      "postgres-adminacct-only", "postgres-adminpw-twice", "sqlite-query-encoded", "unknown-scheme", "sqlite"] {
             s.push(format!("uri:{}/{}", entry, which));
         }
     }
